@@ -18,6 +18,19 @@
 //!        must agree entry by entry, and a panic on either side is a violation;
 //!  (iv)  for content types (ROA / ASPA attestation, manifest content)
 //!        `encode_ref()` of the decoded content equals the eContent octets.
+//!
+//! Inputs stay inside the object profiles (RFC 6487 / 8209 / 9286 / 9582 /
+//! ASPA profile): windows with notBefore <= notAfter, thisUpdate <=
+//! nextUpdate, whole-second times, at least one resource extension, no
+//! inheritance in a TA, RFC 9286 file names, maxLength within the family,
+//! customer AS not among the providers, no ROA without prefixes. What the
+//! property does not demand is not demanded here: that a builder echoes its
+//! inputs (a builder that normalises or ignores a field yields a built value
+//! and a twin that still agree) or that the DER follows profile rules the
+//! library's decoder does not enforce.
+//!
+//! `C05_ONLY=<space>[,<space>]` (cert, crl, sigobj, manifest, roa, aspa, csr,
+//! idcert, sigmsg, cms) restricts a run to some spaces while developing.
 
 use std::collections::{BTreeMap, BTreeSet};
 use std::io;
@@ -42,7 +55,7 @@ use rpki::repository::cert::{Cert, ExtendedKeyUsage, KeyUsage, Overclaim, Resour
 use rpki::repository::crl::{Crl, CrlEntry, TbsCertList};
 use rpki::repository::manifest::{FileAndHash, Manifest, ManifestContent};
 use rpki::repository::resources::{
-    AsBlock, AsBlocks, AsResources, Asn, IpBlock, IpBlocks, IpResources, Prefix,
+    AsBlock, AsBlocks, AsResources, Asn, IpBlock, IpBlocks, IpResources,
 };
 use rpki::repository::roa::{Roa, RoaBuilder, RoaIpAddress, RoaIpAddresses, RouteOriginAttestation};
 use rpki::repository::sigobj::{SignedObject, SignedObjectBuilder};
